@@ -3,6 +3,7 @@ package a
 import (
 	"fmt"
 	"sort"
+	"strings"
 )
 
 // Base worlds and the catalogue of world / data atoms (DESIGN §3.2).
@@ -72,6 +73,30 @@ type WorldAtom struct {
 	Apply func(ss []*SvcSpec) []*SvcSpec // may append services
 	// NeedW0 marks atoms that reference types only W0 has (N2, V)
 	NeedW0 bool
+}
+
+// addRoot appends root field lines, skipping a field the root already has (several atoms
+// bring the same helper mutations).
+func addRoot(dst *[]string, lines ...string) {
+	for _, l := range lines {
+		name := l
+		if i := strings.IndexAny(l, "(:"); i > 0 {
+			name = l[:i]
+		}
+		dup := false
+		for _, have := range *dst {
+			h := have
+			if i := strings.IndexAny(have, "(:"); i > 0 {
+				h = have[:i]
+			}
+			if h == name {
+				dup = true
+			}
+		}
+		if !dup {
+			*dst = append(*dst, l)
+		}
+	}
 }
 
 func ensure(ss []*SvcSpec, i int, typ, impl string) {
@@ -204,11 +229,9 @@ var WorldAtoms = []WorldAtom{
 	}, false},
 	{"mutation-node-shaped-field", func(ss []*SvcSpec) []*SvcSpec {
 		// a root field with the shape of the Relay lookup, (id: ID!): Node, but another name and root type
-		ss[0].Mut = append(ss[0].Mut, "archive(id: ID!): Node")
-		if len(ss[0].Mut) == 1 {
-			ss[0].Mut = append(ss[0].Mut, "incr(by: Int!): Int!")
-		}
-		ss[1].Mut = append(ss[1].Mut, "bump(by: Int!): Int!")
+		addRoot(&ss[0].Mut, "archive(id: ID!): Node")
+		addRoot(&ss[0].Mut, "incr(by: Int!): Int!")
+		addRoot(&ss[1].Mut, "bump(by: Int!): Int!")
 		ss[1].Query = append(ss[1].Query, "lookup(id: ID!): Node")
 		return ss
 	}, false},
@@ -231,11 +254,9 @@ var WorldAtoms = []WorldAtom{
 		return ss
 	}, false},
 	{"mutation-null-and-empty-results", func(ss []*SvcSpec) []*SvcSpec {
-		ss[0].Mut = append(ss[0].Mut, "nullN1: N1", "emptyN1s: [N1!]!")
-		if len(ss[0].Mut) == 2 {
-			ss[0].Mut = append(ss[0].Mut, "incr(by: Int!): Int!")
-		}
-		ss[1].Mut = append(ss[1].Mut, "bump(by: Int!): Int!")
+		addRoot(&ss[0].Mut, "nullN1: N1", "emptyN1s: [N1!]!")
+		addRoot(&ss[0].Mut, "incr(by: Int!): Int!")
+		addRoot(&ss[1].Mut, "bump(by: Int!): Int!")
 		return ss
 	}, false},
 	{"third-service", func(ss []*SvcSpec) []*SvcSpec {
@@ -253,15 +274,13 @@ var WorldAtoms = []WorldAtom{
 		return append(ss, s2)
 	}, false},
 	{"mutation-second-service", func(ss []*SvcSpec) []*SvcSpec {
-		ss[1].Mut = append(ss[1].Mut, "bump(by: Int!): Int!", "touchN1(id: ID!): N1")
-		if len(ss[0].Mut) == 0 {
-			ss[0].Mut = append(ss[0].Mut, "incr(by: Int!): Int!", "mkN1(name: String): N1!")
-		}
+		addRoot(&ss[1].Mut, "bump(by: Int!): Int!", "touchN1(id: ID!): N1")
+		addRoot(&ss[0].Mut, "incr(by: Int!): Int!", "mkN1(name: String): N1!")
 		return ss
 	}, false},
 	{"same-root-name-query-mutation", func(ss []*SvcSpec) []*SvcSpec {
 		ss[0].Query = append(ss[0].Query, "both(x: Int): Int")
-		ss[0].Mut = append(ss[0].Mut, "both(x: Int): Int")
+		addRoot(&ss[0].Mut, "both(x: Int): Int")
 		return ss
 	}, false},
 	{"subscription-roots", func(ss []*SvcSpec) []*SvcSpec {
@@ -270,15 +289,13 @@ var WorldAtoms = []WorldAtom{
 	}, false},
 	{"upload-roots", func(ss []*SvcSpec) []*SvcSpec {
 		ss[0].Extra = append(ss[0].Extra, "scalar Upload", "input UpIn { f: Upload fs: [Upload] s: String }")
-		ss[0].Mut = append(ss[0].Mut, "upload(f: Upload): String", "uploadMany(fs: [Upload]): String", "uploadIn(in: UpIn): String")
-		if len(ss[0].Mut) == 3 {
-			ss[0].Mut = append(ss[0].Mut, "incr(by: Int!): Int!")
-		}
+		addRoot(&ss[0].Mut, "upload(f: Upload): String", "uploadMany(fs: [Upload]): String", "uploadIn(in: UpIn): String")
+		addRoot(&ss[0].Mut, "incr(by: Int!): Int!")
 		return ss
 	}, false},
 	{"upload-second-service", func(ss []*SvcSpec) []*SvcSpec {
 		ss[1].Extra = append(ss[1].Extra, "scalar Upload", "input UpIn { f: Upload fs: [Upload] s: String }")
-		ss[1].Mut = append(ss[1].Mut, "upload1(f: Upload): String", "plain1(s: String): String", "uploadIn1(in: UpIn): String")
+		addRoot(&ss[1].Mut, "upload1(f: Upload): String", "plain1(s: String): String", "uploadIn1(in: UpIn): String")
 		return ss
 	}, false},
 	{"ts-wrappers", func(ss []*SvcSpec) []*SvcSpec {
